@@ -3,7 +3,8 @@
    off and no highlight callback, for EVERY source, env, rule configuration (any core chain, any
    block / inline rule subsets) and any value of the opaque dependencies, the string returned by
    render / renderInline is a concatenation of chunks each of which is a fixed renderer literal,
-   "<tag" / "</tag" for one of 26 fixed tag names, or escapeHtml of data -- never a raw chunk.  Renderer side: statements for ALL token lists without html tokens.  Parser side,
+   "<tag" / "</tag" for one of 26 fixed NON-EMPTY tag names (C04_no_empty_tag: no "<>" can be written; this is
+   what the text_special render rule of fix 8e8fca6 made provable), or escapeHtml of data -- never a raw chunk.  Renderer side: statements for ALL token lists without html tokens.  Parser side,
    block half: for EVERY source and configuration the tag of every token the block parser
    appends comes from a fixed vocabulary of 19 names (or is empty), and html_block tokens exist
    only when options.html is on (C04_block_tags_from_vocabulary).  Only statements and [exact]. *)
@@ -55,8 +56,15 @@ Theorem C04_block_tags_from_vocabulary :
 Proof. exact block_parse_tags. Qed.
 Print Assumptions C04_block_tags_from_vocabulary.
 
-(* the tag vocabulary of the whole parser: 19 block names, 7 inline names, and the empty tag *)
+(* the tag vocabulary of the whole parser: 19 block names and 7 inline names.  The empty tag is NOT in
+   it: tokens whose tag is empty (text, text_special, definition; inline at top level) are rendered by
+   rules that never write the tag, so neither "<" + "" nor "</" + "" is ever a literal of the output *)
 Definition C04_all_tags : list str := all_tags.
+Theorem C04_no_empty_tag :
+  ~ In [] all_tags /\ length all_tags = 26%nat
+  /\ chunk_ok all_tags (CLit [60]) = false /\ chunk_ok all_tags (CLit [60; 47]) = false.
+Proof. exact no_empty_tag. Qed.
+Print Assumptions C04_no_empty_tag.
 
 (* end to end: html off => nothing raw reaches the output of render *)
 Theorem C04_render_safe :
